@@ -1,11 +1,11 @@
 #!/usr/bin/env python3
 """False-alarm controls: applies every behaviour-preserving rewrite under /verif/controls/<id>/patch.diff to /repo in turn, runs the
 quick check of EVERY property, reverts, and records the outcome (no check may report a violation).
-Usage: tools_controls.py [id ...]   (never used by a registered check)"""
+Usage: [CONTROL_PROPS=C01,C04] tools_controls.py [id ...]   (never used by a registered check)"""
 import json, os, subprocess, sys, time
 V = "/verif"
 ids = sys.argv[1:] or sorted(d for d in os.listdir(os.path.join(V, "controls")) if os.path.isdir(os.path.join(V, "controls", d)))
-props = ["C%02d" % i for i in range(1, 20)]
+props = os.environ["CONTROL_PROPS"].split(",") if os.environ.get("CONTROL_PROPS") else ["C%02d" % i for i in range(1, 20)]
 resfile = os.path.join(V, "controls", "RESULTS.json")
 results = json.load(open(resfile)) if os.path.exists(resfile) else {}
 for cid in ids:
